@@ -38,6 +38,12 @@ _now = _time.time          # captured before seams patch the time module
 _mono = _time.monotonic
 
 
+def past_deadline() -> bool:
+    """Checks whose single seeded run contains many executions (crash sweeps) stop sweeping at the batch deadline."""
+    d = os.environ.get("VERIF_DEADLINE")
+    return bool(d) and _now() > float(d)
+
+
 def derive_seed(base: int, check: str, idx: int) -> int:
     h = hashlib.sha256(f"{base}:{check}:{idx}".encode()).digest()
     return int.from_bytes(h[:8], "big") >> 1
@@ -85,6 +91,7 @@ def worker_main(argv: list[str]) -> int:
     per_run_limit = float(os.environ.get("VERIF_RUN_TIMEOUT_S", "600"))
     hs = int(os.environ.get("PYTHONHASHSEED", "0") or 0)
     done = 0
+    os.environ["VERIF_DEADLINE"] = str(deadline)
     for i in range(start, start + count):
         if _now() > deadline:
             break
